@@ -1,6 +1,7 @@
 package appdrv
 
 import (
+	"bytes"
 	"fmt"
 	rctypes "github.com/rigochain/rigo-go/ctrlers/types"
 	"time"
@@ -436,6 +437,76 @@ var Scenarios = []Directed{
 			}
 			s.End()
 		}
+	}},
+	{"mixed_proposal_types", []string{"C15", "C07", "C19"}, fam(0), func(s *Script) {
+		// proposals of both types (parameters; off-chain text) adopted together and applied in the same block, in both
+		// orders of their ledger keys: off-chain proposals are proposed until one sorts before and one after the
+		// parameter proposal
+		s.Blocks(2, allHdr)
+		s.Begin(allHdr) // 3
+		s.expect(OK(s.ProposeType(1, 0x0101, "params", 5, 3, 12, `{"gasPrice":"20"}`)), "parameter proposal")
+		ids := s.Proposals()
+		if len(ids) != 1 {
+			s.expect(false, "one proposal")
+			return
+		}
+		g := s.R.KR.HashOf(ids[0])
+		before, after := 0, 0
+		for i := 0; i < 12 && (before == 0 || after == 0); i++ {
+			s.expect(OK(s.ProposeType(2, 0x0200, fmt.Sprintf("text %d", i), 5, 3, 12, "yes", "no")), "off-chain proposal")
+			for _, id := range s.Proposals() {
+				if id == ids[0] {
+					continue
+				}
+				if c := bytes.Compare(s.R.KR.HashOf(id), g); c < 0 {
+					before++
+				} else {
+					after++
+				}
+			}
+			if before == 0 || after == 0 {
+				before, after = 0, 0
+			}
+		}
+		s.End()
+		s.Blocks(1, allHdr)
+		s.Begin(allHdr) // 5
+		for _, id := range s.Proposals() {
+			for v := 1; v <= 3; v++ {
+				s.Vote(v, id, 0)
+			}
+		}
+		s.End()
+		s.Blocks(4, allHdr) // 6..9: closed after 8, adopted at 9
+		s.Restart()
+		s.Blocks(4, allHdr)   // applied at 12
+		s.Begin(allHdr)       // 14
+		s.Transfer(4, 5, "1") // at the price that is active now
+		s.End()
+		s.Blocks(1, allHdr)
+	}},
+	{"stake_amount_shapes", []string{"C02", "C11", "C05"}, fam(0), func(s *Script) {
+		// amounts around the whole-power rule: q x 10^18 + r for small q and remainders that are 1, q, a multiple of q,
+		// half a unit, one short of a unit; below one unit; zero - bonded to oneself and delegated; then released again
+		s.Blocks(2, allHdr)
+		s.Begin(allHdr) // 3
+		for _, a := range []string{"1000000000000000001", "1500000000000000000", "2000000000000000002", "2000000000000000001",
+			"3000000000000000003", "3000000000000000006", "4999999999999999999", "999999999999999999", "500000000000000000", "1", "0",
+			"12000000000000000012", "2e18"} {
+			s.Stake(4, 1, a)
+			s.Stake(5, 5, a)
+		}
+		s.End()
+		s.Blocks(1, allHdr)
+		s.Begin(allHdr) // 5
+		for _, id := range s.StakeIDs(4, 1) {
+			s.Unstake(4, 1, id)
+		}
+		for _, id := range s.StakeIDs(5, 5) {
+			s.Unstake(5, 5, id)
+		}
+		s.End()
+		s.Blocks(6, allHdr)
 	}},
 	{"restart_after_first_block", []string{"C10", "C07"}, fam(0), func(s *Script) {
 		// the very first block already changes the staking ledger (a new validator, a delegation), and the process is
